@@ -166,11 +166,12 @@ def run_scenario(name: str, seed: int, params: dict, res: Result | None = None, 
     if status == "spin":
         spin = probe.spin
         if sc.finite:
+            tag = (sc.extras or {}).get("mechanism_tag")  # e.g. the policy class a limiter delegates its waits to
             for comp, shape, cycle in probe.spin_signatures():
                 res.add(
                     "frozen-clock",
                     comp,
-                    shape,
+                    f"{shape}@{tag}" if tag else shape,
                     detail=(
                         f"{spin.count} deliveries at t={spin.time_ns} ns (cap {cap}, {sc.workload} arrivals scheduled) "
                         f"in scenario {name}; cycle={cycle[:6]}"
